@@ -161,6 +161,20 @@ class Interp:
             v = self.ev(e[2], env)
             self.assign(env, e[1], self.coerce(self.lookup(env, e[1])[0], v))
             return v
+        if k == "aassignx":
+            # value of 'a[i] = v' is the value assigned (syntax.md: '=' is right-associative in expressions)
+            arr = self.lookup(env, e[1])
+            i = self.ev(e[2], env)
+            v = self.ev(e[3], env)
+            if not 0 <= i[1] < len(arr[1]):
+                raise RuntimeErr("index out of bounds")
+            elem = self.coerce(arr[0][:-2], v)
+            new = list(arr[1])
+            new[i[1]] = elem[1]
+            self.assign(env, e[1], (arr[0], new))
+            if elem[0] != v[0]:
+                raise Unspecified("value of an element assignment that converts")
+            return v
         if k == "arrlit":
             vals = [self.ev(x, env) for x in e[2]]
             return (e[1], [self.coerce(e[1][:-2], v)[1] for v in vals])
@@ -407,6 +421,9 @@ def ex_src(e):
         return "%s%s" % (e[2], e[1])
     if k == "assignx":
         return "(%s = %s)" % (e[1], ex_src(e[2]))
+    if k == "aassignx":
+        body = "%s[%s] = %s" % (e[1], ex_src(e[2]), ex_src(e[3]))
+        return "(%s)" % body if (len(e) < 5 or e[4]) else body
     if k == "arrlit":
         return "{" + ", ".join(ex_src(x) for x in e[2]) + "}"
     if k == "bin":
